@@ -1,6 +1,6 @@
 (* finite obligations on the regenerated inventory (re-checked on every run against the current source) *)
 From Coq Require Import ZArith List Bool String.
-From RV Require Import Base.Wire Base.Text Lang.Order Lang.DevSession Proofs.DevSessionP Gen.SetSites Lang.OrderSites.
+From RV Require Import Base.Wire Base.Text Lang.Order Lang.DevSession Proofs.DevSessionP Lang.MemoSession Proofs.MemoSessionP Gen.SetSites Lang.OrderSites.
 Import ListNotations.
 Open Scope Z_scope.
 
@@ -105,3 +105,28 @@ Proof. vm_compute. reflexivity. Qed.
 Lemma session_stateless_current_source : forall ms before p after,
   nth_error (dsession cfg_gen ms (before ++ p :: after)) (List.length before) = Some (transl_dev p).
 Proof. intros ms before p after. apply dsession_stateless. exact cfg_gen_ok. Qed.
+
+(* ---------------------------------------------------------------- no sorted() over a set takes a key *)
+Lemma sorted_sites_keyless_b : forallb site_keyless sites = true.
+Proof. vm_compute. reflexivity. Qed.
+
+Lemma sorted_sites_keyless : forall s, In s sites -> s_keyed s = false.
+Proof.
+  intros s Hs. pose proof sorted_sites_keyless_b as H. rewrite forallb_forall in H. specialize (H s Hs).
+  unfold site_keyless in H. apply negb_true_iff in H. exact H.
+Qed.
+
+(* ---------------------------------------------------------------- no helper of the current source is memoised *)
+Lemma no_cached_helper : cache_sites = [].
+Proof. vm_compute. reflexivity. Qed.
+
+Lemma cached_gen_false : forall c, cached_gen c = false.
+Proof. intros c. unfold cached_gen. rewrite no_cached_helper. reflexivity. Qed.
+
+Lemma helpers_stateless_current_source : forall keq hit miss t before p after,
+  nth_error (session keq cached_gen hit miss t (before ++ p :: after)) (List.length before) = Some (map spec p).
+Proof.
+  intros keq hit miss t before p after. rewrite (uncached_session keq cached_gen hit miss t _ cached_gen_false).
+  rewrite map_app. rewrite nth_error_app2; rewrite map_length; [|apply le_n].
+  rewrite PeanoNat.Nat.sub_diag. reflexivity.
+Qed.
